@@ -1,7 +1,8 @@
 """C01 — Beacon configuration extraction: independent payload builder, generators, adapters to the real library.
 
 Lines
-  ext    <b|F|f> <B> <allkeys T|F> <keys> <data> <expect>   b = BeaconConfig.from_bytes, F = from_file(io.BytesIO), f = from_path(temp file)
+  ext    <b|F<pos>|f> <B> <allkeys T|F> <keys> <data> <expect>   b = BeaconConfig.from_bytes, F<pos> = from_file(io.BytesIO standing at pos),
+                                                                f = from_path(temp file)
   spec   <b> <B> <allkeys> <keys> <data> <expect>           same call as `ext b`; the Lean side evaluates the declarative `extractSpec`
   blocks <b|f> <B> <xordecode T|F> <allkeys T|F> <keys> <data>   iter_beacon_config_blocks run to completion
   left   <b|f> <B> <keys> <data>                            the sorted residual key list of the all-keys retry (spied on `make_byte_list`)
@@ -405,158 +406,166 @@ def gen(tier, rng, shard, nshards):
     def emit(kind, B, ak, keys, data, views, op="ext"):
         return op, ext_line(kind, B, ak, keys, data, expected(views, keys, ak), op)
 
-    kinds = ["b", "F", "f"]
+    def entry():
+        r = rng.random()
+        if r < 0.3:
+            return "b"
+        if r < 0.6:
+            return "f"
+        # from_file on a BytesIO that does not stand at the start (the scans must rewind)
+        return "F" + rng.choice(["", "", "1", "7", "4096", "100000"])
 
-    # ---- 1. offsets around read-buffer boundaries, raw container, real buffer size and patched small ones
-    for B in ([8192, 64, 509] if not thorough else [8192, 64, 509, 7, 4096, 1000]):
-        for off in offsets_around(B, thorough):
-            for rep in range(2 if thorough else 1):
+    for _round in range(5 if thorough else 2):
+        # ---- 1. offsets around read-buffer boundaries, raw container, real buffer size and patched small ones
+        for B in ([8192, 64, 509] if not thorough else [8192, 64, 509, 7, 4096, 1000]):
+            for off in offsets_around(B, thorough):
+                for rep in range(2 if thorough else 1):
+                    if not mine():
+                        continue
+                    key = bytes([rng.choice([0x69, 0x2E, 0x00, rng.randrange(256)])])
+                    if key in DEFAULT_KEYS:
+                        keys, ak = rng.choice([None, None, []]), rng.random() < 0.2
+                    else:
+                        keys, ak = rng.choice([([key], False), (None, True), ([b"\x01", key], False)])
+                    small = B < 4096
+                    bs = rng.choice([PATCH, 200, 64]) if small else PATCH
+                    total = off + bs + rng.choice([0, 1, 50, 300]) if rng.random() < 0.8 else off + bs
+                    if ak and keys is None and total > 9000:
+                        bs = PATCH
+                    data, views = build_case(rng, key=key, keys=keys, ak=ak, container="raw", off=off, total=total,
+                                             filler=rng.choice(FILLERS), B=B, blocksize=bs, tail=rng.choice(["zero", "zero", "rand"]))
+                    yield emit(entry(), B, ak, keys, data, views)
+
+        # ---- 2. every key 0..255: custom list, and all-keys mode (small payloads keep the 256 scans cheap)
+        for kb in range(256):
+            for mode in (0, 1, 2):
                 if not mine():
                     continue
-                key = bytes([rng.choice([0x69, 0x2E, 0x00, rng.randrange(256)])])
-                if key in DEFAULT_KEYS:
-                    keys, ak = rng.choice([None, None, []]), rng.random() < 0.2
+                key = bytes([kb])
+                if mode == 0:
+                    keys, ak = [key], False
+                elif mode == 1:
+                    keys, ak = None, True
                 else:
-                    keys, ak = rng.choice([([key], False), (None, True), ([b"\x01", key], False)])
-                small = B < 4096
-                bs = rng.choice([PATCH, 200, 64]) if small else PATCH
-                total = off + bs + rng.choice([0, 1, 50, 300]) if rng.random() < 0.8 else off + bs
-                if ak and keys is None and total > 9000:
-                    bs = PATCH
-                data, views = build_case(rng, key=key, keys=keys, ak=ak, container="raw", off=off, total=total,
-                                         filler=rng.choice(FILLERS), B=B, blocksize=bs, tail=rng.choice(["zero", "zero", "rand"]))
-                yield emit(rng.choice(kinds), B, ak, keys, data, views)
-
-    # ---- 2. every key 0..255: custom list, and all-keys mode (small payloads keep the 256 scans cheap)
-    for kb in range(256):
-        for mode in (0, 1, 2):
-            if not mine():
-                continue
-            key = bytes([kb])
-            if mode == 0:
-                keys, ak = [key], False
-            elif mode == 1:
-                keys, ak = None, True
-            else:
-                keys, ak = [bytes([kb ^ 0xFF]), key, bytes([(kb + 1) % 256])], False
-            B = rng.choice([8192, 8192, 128, 33])
-            bs = rng.choice([PATCH, 300, 96])
-            off = rng.choice([0, 1, 5, 100, B - 3 if B < 200 else 17, 2 * B + 1 if B < 200 else 701])
-            container = rng.choice(["raw", "raw", "pe", "xs", "xsm"]) if (thorough or kb % 4 == mode) else "raw"
-            if container != "raw":
-                off = max(off, 720)
-                if ak:
-                    bs = rng.choice([300, 96])
-            data, views = build_case(rng, key=key, keys=keys, ak=ak, container=container, off=off,
-                                     total=off + bs + rng.choice([0, 9, 200]), filler=rng.choice(FILLERS), B=B, blocksize=bs)
-            yield emit(rng.choice(kinds), B, ak, keys, data, views)
-
-    # ---- 3. containers: PE-like image and XorEncoded stages (size relation / marker / both / undetectable)
-    nrep = 10 if thorough else 3
-    for container in ["pe", "xs", "xm", "xsm", "xbad"]:
-        for rep in range(nrep):
-            for B, off in [(8192, 8192 - 3), (8192, 800), (256, 1024 - 5), (256, 1021), (64, 1280)]:
-                if not mine():
-                    continue
-                key = bytes([rng.choice([0x69, 0x2E, 0x00, rng.randrange(256)])])
-                if key in DEFAULT_KEYS:
-                    keys, ak = None, False
-                else:
-                    keys, ak = rng.choice([([key], False), ([b"\x69", key], False)])
-                bs = PATCH if B == 8192 else rng.choice([PATCH, 500])
-                cut = rep % 4 == 3
-                data, views = build_case(rng, key=key, keys=keys, ak=ak, container=container, off=off,
-                                         total=off + bs + rng.choice([0, 3, 100]), filler=rng.choice(FILLERS), B=B, blocksize=bs, cut=cut)
-                yield emit(rng.choice(kinds), B, ak, keys, data, views)
-
-    # ---- 4. priority: several candidates (key priority beats file order; file order within a key; view beats raw)
-    pairs = [(b"\x69", b"\x2e"), (b"\x2e", b"\x69"), (b"\x00", b"\x69"), (b"\x2e", b"\x00"), (b"\x69", b"\x69"), (b"\x00", b"\x00")]
-    for rep in range(12 if thorough else 3):
-        for k1, k2 in pairs:
-            for B in (8192, 100):
-                if not mine():
-                    continue
-                # k1 planted EARLIER in the file than k2; default list order decides
-                o1 = rng.choice([0, 3, B - 5, 50])
-                o2 = o1 + rng.choice([7, 64, 300, 4096, 4097, B + 1])
-                bs = 64
-                container = rng.choice(["raw", "raw", "pe", "xs"])
+                    keys, ak = [bytes([kb ^ 0xFF]), key, bytes([(kb + 1) % 256])], False
+                B = rng.choice([8192, 8192, 128, 33])
+                bs = rng.choice([PATCH, 300, 96])
+                off = rng.choice([0, 1, 5, 100, B - 3 if B < 200 else 17, 2 * B + 1 if B < 200 else 701])
+                container = rng.choice(["raw", "raw", "pe", "xs", "xsm"]) if (thorough or kb % 4 == mode) else "raw"
                 if container != "raw":
-                    o1 += 720
-                    o2 += 720
-                data, views = build_case(rng, key=k1, keys=None, ak=False, container=container, off=o1, total=o2 + 200,
-                                         filler=rng.choice(["zero", "random", "decoy"]), B=B, blocksize=bs, decoys=[(k2, o2, 64)])
-                yield emit(rng.choice(kinds), B, False, None, data, views)
-                # custom list in reversed priority on the same payload
-                keys = rng.choice([[k2, k1], [k1, k2], [k2, k2, k1], [b"\x55", k2, k1]])
-                yield "ext", ext_line(rng.choice(kinds), B, False, keys, data, expected(views, keys, False))
-    for rep in range(20 if thorough else 6):
-        if not mine():
-            continue
-        # candidate under the FIRST default key in the raw stub, candidate under the LAST one in the decoded view: the view wins
-        kv, kr = rng.choice([(b"\x00", b"\x69"), (b"\x2e", b"\x69"), (b"\x69", b"\x69")])
-        data, views = build_case(rng, key=kv, keys=None, ak=False, container=rng.choice(["xs", "xsm"]), off=rng.choice([720, 900, 1500]),
-                                 total=2200, filler=rng.choice(["zero", "random"]), B=rng.choice([8192, 128]), blocksize=128, stub_decoy=kr)
-        yield emit(rng.choice(kinds), 8192, False, None, data, views)
+                    off = max(off, 720)
+                    if ak:
+                        bs = rng.choice([300, 96])
+                data, views = build_case(rng, key=key, keys=keys, ak=ak, container=container, off=off,
+                                         total=off + bs + rng.choice([0, 9, 200]), filler=rng.choice(FILLERS), B=B, blocksize=bs)
+                yield emit(entry(), B, ak, keys, data, views)
 
-    # ---- 5. key lists: repeated keys, multi-byte keys, the empty bytes object, empty list
-    lists = [
-        (b"\x69\x69", [b"\x69\x69"]), (b"\x01\x02", [b"\x01\x02"]), (b"\x01\x02\x03", [b"\x00", b"\x01\x02\x03"]),
-        (b"", [b""]), (b"\x00", [b""]), (b"", [b"\x00"]), (b"\x00\x00", [b"\x41", b"\x00\x00"]),
-        (b"\x2e", [b"\x2e", b"\x2e", b"\x2e"]), (b"\x2e", []), (b"\xaf", [b"\xcc", b"\xaf"]), (b"\xcc", [b"\xcc", b"\xaf"]),
-        (b"\x10\x20\x30\x40\x50\x60\x70\x80\x90", [b"\x10\x20\x30\x40\x50\x60\x70\x80\x90"]),
-    ]
-    for rep in range(6 if thorough else 2):
-        for key, keys in lists:
+        # ---- 3. containers: PE-like image and XorEncoded stages (size relation / marker / both / undetectable)
+        nrep = 10 if thorough else 3
+        for container in ["pe", "xs", "xm", "xsm", "xbad"]:
+            for rep in range(nrep):
+                for B, off in [(8192, 8192 - 3), (8192, 800), (256, 1024 - 5), (256, 1021), (64, 1280)]:
+                    if not mine():
+                        continue
+                    key = bytes([rng.choice([0x69, 0x2E, 0x00, rng.randrange(256)])])
+                    if key in DEFAULT_KEYS:
+                        keys, ak = None, False
+                    else:
+                        keys, ak = rng.choice([([key], False), ([b"\x69", key], False)])
+                    bs = PATCH if B == 8192 else rng.choice([PATCH, 500])
+                    cut = rep % 4 == 3
+                    data, views = build_case(rng, key=key, keys=keys, ak=ak, container=container, off=off,
+                                             total=off + bs + rng.choice([0, 3, 100]), filler=rng.choice(FILLERS), B=B, blocksize=bs, cut=cut)
+                    yield emit(entry(), B, ak, keys, data, views)
+
+        # ---- 4. priority: several candidates (key priority beats file order; file order within a key; view beats raw)
+        pairs = [(b"\x69", b"\x2e"), (b"\x2e", b"\x69"), (b"\x00", b"\x69"), (b"\x2e", b"\x00"), (b"\x69", b"\x69"), (b"\x00", b"\x00")]
+        for rep in range(12 if thorough else 3):
+            for k1, k2 in pairs:
+                for B in (8192, 100):
+                    if not mine():
+                        continue
+                    # k1 planted EARLIER in the file than k2; default list order decides
+                    o1 = rng.choice([0, 3, B - 5, 50])
+                    o2 = o1 + rng.choice([7, 64, 300, 4096, 4097, B + 1])
+                    bs = 64
+                    container = rng.choice(["raw", "raw", "pe", "xs"])
+                    if container != "raw":
+                        o1 += 720
+                        o2 += 720
+                    data, views = build_case(rng, key=k1, keys=None, ak=False, container=container, off=o1, total=o2 + 200,
+                                             filler=rng.choice(["zero", "random", "decoy"]), B=B, blocksize=bs, decoys=[(k2, o2, 64)])
+                    yield emit(entry(), B, False, None, data, views)
+                    # custom list in reversed priority on the same payload
+                    keys = rng.choice([[k2, k1], [k1, k2], [k2, k2, k1], [b"\x55", k2, k1]])
+                    yield "ext", ext_line(entry(), B, False, keys, data, expected(views, keys, False))
+        for rep in range(20 if thorough else 6):
             if not mine():
                 continue
-            B = rng.choice([8192, 61])
-            off = rng.choice([0, 1, B - 4 if B < 100 else 333])
-            ak = rng.random() < 0.25
-            data, views = build_case(rng, key=key, keys=keys, ak=ak, container=rng.choice(["raw", "raw", "pe"]), off=off,
-                                     total=off + 900, filler=rng.choice(["zero", "random", "decoy"]), B=B, blocksize=rng.choice([64, 700]))
-            yield emit(rng.choice(kinds), B, ak, keys, data, views)
+            # candidate under the FIRST default key in the raw stub, candidate under the LAST one in the decoded view: the view wins
+            kv, kr = rng.choice([(b"\x00", b"\x69"), (b"\x2e", b"\x69"), (b"\x69", b"\x69")])
+            data, views = build_case(rng, key=kv, keys=None, ak=False, container=rng.choice(["xs", "xsm"]), off=rng.choice([720, 900, 1500]),
+                                     total=2200, filler=rng.choice(["zero", "random"]), B=rng.choice([8192, 128]), blocksize=128, stub_decoy=kr)
+            yield emit(entry(), 8192, False, None, data, views)
 
-    # ---- 6. negative stream: no candidate under the tried keys -> ValueError; with all-keys the planted key is found
-    for rep in range(60 if thorough else 16):
-        if not mine():
-            continue
-        key = bytes([rng.choice([x for x in range(256) if x not in (0x69, 0x2E, 0x00)])])
-        B = rng.choice([8192, 200])
-        container = rng.choice(["raw", "raw", "pe", "xs", "xbad"])
-        off = rng.choice([0, 5, B - 2 if B < 300 else 900]) + (720 if container != "raw" else 0)
-        bs = rng.choice([PATCH, 128]) if container == "raw" else 128
-        for keys, ak in [(None, False), (None, True), ([b"\x69", bytes([key[0] ^ 1])], False)]:
-            data, views = build_case(rng, key=key, keys=keys, ak=True, container=container, off=off, total=off + bs + 40,
-                                     filler=rng.choice(FILLERS), B=B, blocksize=bs)
-            yield emit(rng.choice(kinds), B, ak, keys, data, views)
-    for rep in range(30 if thorough else 8):
-        if not mine():
-            continue
-        # nothing planted at all (pure filler / empty / tiny inputs)
-        n = rng.choice([0, 1, 6, 7, 8, 100, 5000])
-        kind = rng.choice(FILLERS)
-        view = mk_filler(rng, n, kind, DEFAULT_KEYS)
-        ak = rng.random() < 0.4
-        scrub(view, tried_keys(None, ak), rng)
-        data = bytes(view)
-        yield emit(rng.choice(kinds), rng.choice([8192, 16]), ak, None, data, [(False, data)])
+        # ---- 5. key lists: repeated keys, multi-byte keys, the empty bytes object, empty list
+        lists = [
+            (b"\x69\x69", [b"\x69\x69"]), (b"\x01\x02", [b"\x01\x02"]), (b"\x01\x02\x03", [b"\x00", b"\x01\x02\x03"]),
+            (b"", [b""]), (b"\x00", [b""]), (b"", [b"\x00"]), (b"\x00\x00", [b"\x41", b"\x00\x00"]),
+            (b"\x2e", [b"\x2e", b"\x2e", b"\x2e"]), (b"\x2e", []), (b"\xaf", [b"\xcc", b"\xaf"]), (b"\xcc", [b"\xcc", b"\xaf"]),
+            (b"\x10\x20\x30\x40\x50\x60\x70\x80\x90", [b"\x10\x20\x30\x40\x50\x60\x70\x80\x90"]),
+        ]
+        for rep in range(6 if thorough else 2):
+            for key, keys in lists:
+                if not mine():
+                    continue
+                B = rng.choice([8192, 61])
+                off = rng.choice([0, 1, B - 4 if B < 100 else 333])
+                ak = rng.random() < 0.25
+                data, views = build_case(rng, key=key, keys=keys, ak=ak, container=rng.choice(["raw", "raw", "pe"]), off=off,
+                                         total=off + 900, filler=rng.choice(["zero", "random", "decoy"]), B=B, blocksize=rng.choice([64, 700]))
+                yield emit(entry(), B, ak, keys, data, views)
 
-    # ---- 7. all-keys mode with candidates under SEVERAL non-default keys: the winner depends on the byte counter (exact π compared)
-    for rep in range(80 if thorough else 20):
-        if not mine():
-            continue
-        ks = rng.sample(range(1, 256), 3)
-        ks = [bytes([x]) for x in ks if x not in (0x69, 0x2E)]
-        B = rng.choice([8192, 64, 40])
-        container = rng.choice(["raw", "raw", "raw", "pe", "xs"])
-        base = 720 if container != "raw" else 0
-        offs = rng.sample([base + 8, base + 300, base + 700, base + 1100], len(ks))
-        sizes = [rng.choice([64, 200, 260]) for _ in ks]
-        data, views = build_case(rng, key=ks[0], keys=None, ak=True, container=container, off=offs[0], total=base + 1500,
-                                 filler=rng.choice(["runs", "runs", "zero", "random"]), B=B, blocksize=sizes[0],
-                                 decoys=[(kk, oo, ss) for kk, oo, ss in zip(ks[1:], offs[1:], sizes[1:])])
-        yield emit(rng.choice(kinds), B, True, None, data, views)
+        # ---- 6. negative stream: no candidate under the tried keys -> ValueError; with all-keys the planted key is found
+        for rep in range(60 if thorough else 16):
+            if not mine():
+                continue
+            key = bytes([rng.choice([x for x in range(256) if x not in (0x69, 0x2E, 0x00)])])
+            B = rng.choice([8192, 200])
+            container = rng.choice(["raw", "raw", "pe", "xs", "xbad"])
+            off = rng.choice([0, 5, B - 2 if B < 300 else 900]) + (720 if container != "raw" else 0)
+            bs = rng.choice([PATCH, 128]) if container == "raw" else 128
+            for keys, ak in [(None, False), (None, True), ([b"\x69", bytes([key[0] ^ 1])], False)]:
+                data, views = build_case(rng, key=key, keys=keys, ak=True, container=container, off=off, total=off + bs + 40,
+                                         filler=rng.choice(FILLERS), B=B, blocksize=bs)
+                yield emit(entry(), B, ak, keys, data, views)
+        for rep in range(30 if thorough else 8):
+            if not mine():
+                continue
+            # nothing planted at all (pure filler / empty / tiny inputs)
+            n = rng.choice([0, 1, 6, 7, 8, 100, 5000])
+            kind = rng.choice(FILLERS)
+            view = mk_filler(rng, n, kind, DEFAULT_KEYS)
+            ak = rng.random() < 0.4
+            scrub(view, tried_keys(None, ak), rng)
+            data = bytes(view)
+            yield emit(entry(), rng.choice([8192, 16]), ak, None, data, [(False, data)])
+
+        # ---- 7. all-keys mode with candidates under SEVERAL non-default keys: the winner depends on the byte counter (exact π compared)
+        for rep in range(80 if thorough else 20):
+            if not mine():
+                continue
+            ks = rng.sample(range(1, 256), 3)
+            ks = [bytes([x]) for x in ks if x not in (0x69, 0x2E)]
+            B = rng.choice([8192, 64, 40])
+            container = rng.choice(["raw", "raw", "raw", "pe", "xs"])
+            base = 720 if container != "raw" else 0
+            offs = rng.sample([base + 8, base + 300, base + 700, base + 1100], len(ks))
+            sizes = [rng.choice([64, 200, 260]) for _ in ks]
+            data, views = build_case(rng, key=ks[0], keys=None, ak=True, container=container, off=offs[0], total=base + 1500,
+                                     filler=rng.choice(["runs", "runs", "zero", "random"]), B=B, blocksize=sizes[0],
+                                     decoys=[(kk, oo, ss) for kk, oo, ss in zip(ks[1:], offs[1:], sizes[1:])])
+            yield emit(entry(), B, True, None, data, views)
 
     # ---- 8. random mix
     for _ in range((600 if thorough else 60) // nshards):
@@ -583,10 +592,10 @@ def gen(tier, rng, shard, nshards):
         decoys = [(bytes([rng.choice([0x69, 0x2E, 0x00, 0x13])]), rng.randrange(0, off + bs + 500), 64) for _ in range(ndec)]
         data, views = build_case(rng, key=key, keys=keys, ak=ak, container=container, off=off, total=off + bs + rng.randrange(0, 600),
                                  filler=rng.choice(FILLERS), B=B, blocksize=bs, cut=cut, decoys=decoys, tail=rng.choice(["zero", "rand"]))
-        yield emit(rng.choice(kinds), B, ak, keys, data, views)
+        yield emit(entry(), B, ak, keys, data, views)
 
     # ---- 9. spec stream: small payloads, Lean evaluates the declarative specification
-    for rep in range(300 if thorough else 60):
+    for rep in range(900 if thorough else 160):
         if not mine():
             continue
         key = bytes([rng.choice([0x69, 0x2E, 0x00, rng.randrange(256)])])
@@ -601,7 +610,7 @@ def gen(tier, rng, shard, nshards):
         yield emit("b", 8192, ak, keys, data, views, op="spec")
 
     # ---- 10. iter_beacon_config_blocks run to completion
-    for rep in range(150 if thorough else 40):
+    for rep in range(500 if thorough else 100):
         if not mine():
             continue
         B = rng.choice([8192, 8192, 300, 64])
@@ -620,8 +629,29 @@ def gen(tier, rng, shard, nshards):
                                  stub_decoy=rng.choice([None, None, b"\x69"]) if container == "xs" else None)
         yield "blocks", f"blocks {rng.choice('bf')} {B} {C.tf(xd)} {C.tf(ak)} {fmt_keys(keys)} {C.hx(data)}"
 
+    for rep in range(240 if thorough else 48):
+        if not mine():
+            continue
+        B = rng.choice([8192, 128])
+        if rep % 2 == 0:
+            # candidates in the decoded view AND in the raw stub: the raw ones must not be yielded (`found` after phase 1)
+            kv, kr = rng.choice([(b"\x69", b"\x69"), (b"\x2e", b"\x69"), (b"\x00", b"\x2e"), (b"\x69", b"\x00")])
+            data, views = build_case(rng, key=kv, keys=None, ak=False, container="xs", off=rng.choice([720, 1000]), total=1800,
+                                     filler=rng.choice(["zero", "random"]), B=B, blocksize=64, stub_decoy=kr,
+                                     decoys=[(kv, 1300, 64)] if rng.random() < 0.5 else [])
+            yield "blocks", f"blocks {rng.choice('bf')} {B} T {C.tf(rng.random() < 0.5)} none {C.hx(data)}"
+        else:
+            # candidates under a default key and under residual keys, all-keys mode: the retry must not run (`found` after phase 2)
+            kd = rng.choice(DEFAULT_KEYS)
+            kl = bytes([rng.choice([0x41, 0xAF, 0x01])])
+            o1, o2 = rng.sample([0, 200, 400, 5000], 2)
+            data, views = build_case(rng, key=kd, keys=None, ak=False, container="raw", off=o1, total=5200,
+                                     filler=rng.choice(["zero", "random", "runs"]), B=B, blocksize=64, decoys=[(kl, o2, 64)])
+            yield "blocks", f"blocks {rng.choice('bf')} {B} T T none {C.hx(data)}"
+            yield "blocks", f"blocks {rng.choice('bf')} {B} T T K{kl.hex()} {C.hx(data)}"
+
     # ---- 11. residual key order
-    for rep in range(120 if thorough else 30):
+    for rep in range(500 if thorough else 100):
         if not mine():
             continue
         B = rng.choice([8192, 64, 10, 7, 4])
@@ -689,8 +719,10 @@ def impl(stream, line):
         with _Buf(B):
             if kind == "b":
                 bc = BeaconConfig.from_bytes(data, xor_keys=keys, all_xor_keys=ak)
-            elif kind == "F":
-                bc = BeaconConfig.from_file(io.BytesIO(data), xor_keys=keys, all_xor_keys=ak)
+            elif kind[0] == "F":
+                fobj = io.BytesIO(data)
+                fobj.seek(int(kind[1:] or "0"))
+                bc = BeaconConfig.from_file(fobj, xor_keys=keys, all_xor_keys=ak)
             else:
                 path = _tmpfile(data)
                 try:
